@@ -74,6 +74,8 @@ def gen_frame(rng, n_pre=None, cooldown=None, cost_kind=None, spike=False):
     for g in range(n_c):
       v = xc * wc[g] / sum(wc)
       cost = rng.uniform(1, 5) if cost_kind == 'variable' else 0.0
+      if cost_kind == 'fixed_cool' and period[d] == 2:
+        cost = rng.uniform(1, 5)       # control spend after the test period: still the fixed-cost scenario
       rows.append([f'c{g}', d, 1, period[d], v, cost])
     for g in range(n_t):
       v = yt * wt[g] / sum(wt)
